@@ -122,6 +122,10 @@ SHORT = {
         "print(a, b, c, tuple, slice, type)\n"
     ),
     "shadow_helper_modules": "itertools = 'mine'\nimportlib = 'mine too'\ni = 0\nwhile i < 2:\n    i += 1\nprint(itertools, importlib, i)\n",
+    "comp_target_then_load": (
+        "def f(k, v):\n    def g():\n        return k + v\n    xs = [k for k in range(3)]\n    ys = {v: k for v in xs}\n    return (k, v, xs, ys, g())\n"
+        "class C:\n    k = 5\n    sq = [k for k in range(2)]\n    after = k\n    def m(self, n=k):\n        return n\nprint(f(10, 20), C.after, C().m())\n"
+    ),
     "global_decl": "g = 0\ndef f():\n    global g\n    g += 1\n    return g\nf()\nprint(g)\n",
     # --- classes -------------------------------------------------------------------
     "class_super": (
